@@ -1,22 +1,42 @@
 #!/bin/bash
-# usage: run_mutants.sh [pattern]  -- applies each mutant to /repo, checks that it still builds, runs the property check, expects a VIOLATION, reverts.
+# usage: run_mutants.sh [pattern]  -- applies each mutant to a scratch worktree of /repo's HEAD (outside /repo and /verif),
+# checks that it still builds, runs the property check on it, expects a VIOLATION, reverts. The worktree is removed at the end.
+# Mutants under mutants/equivalent/ are must-PASS cases (semantically equivalent changes: no alarm may be raised).
 export GOFLAGS=-mod=mod GOPROXY=off GOSUMDB=off GOTOOLCHAIN=local
-cd /repo
-if [ -n "$(git status --porcelain --untracked-files=no)" ]; then echo "/repo not clean"; exit 2; fi
+wt=${MUT_WT:-/tmp/govc_mut_wt_$$}
+git -C /repo worktree remove --force $wt 2>/dev/null
+git -C /repo worktree add --detach -f $wt HEAD -q || exit 2
+trap 'cd /; git -C /repo worktree remove --force $wt 2>/dev/null; git -C /repo worktree prune; rm -f $wt.diff $wt.err' EXIT
+cd $wt
 pass=0; fail=0
 for p in /verif/mutants/${1:-*}.patch; do
   name=$(basename $p .patch)
   prop=$(grep '^# prop:' $p | sed 's/# prop: //')
-  grep -v '^# ' $p > /tmp/mut_apply.diff
-  if ! git apply /tmp/mut_apply.diff 2>/tmp/mut_err; then echo "SKIP $name (does not apply: $(head -1 /tmp/mut_err))"; continue; fi
-  if ! go build ./... 2>/tmp/mut_err; then echo "SKIP $name (does not build)"; git checkout -- .; continue; fi
+  grep -v '^# ' $p > $wt.diff
+  if ! git apply $wt.diff 2>$wt.err; then echo "SKIP $name (does not apply: $(head -1 $wt.err))"; continue; fi
+  if ! go build ./... 2>$wt.err; then echo "SKIP $name (does not build)"; git checkout -- .; continue; fi
   res=""
   for pr in $prop; do
-    out=$(/verif/bin/govc check $pr 2>&1); rc=$?
-    if [ $rc -eq 1 ] && echo "$out" | grep -q "^VIOLATION property=$pr"; then res="$res $pr:caught"; else res="$res $pr:MISSED(rc=$rc)"; fi
+    out=$(/verif/bin/govc check $pr --repo $wt --timeout ${MUT_TIMEOUT:-8} --noevidence 2>&1); rc=$?
+    if [ $rc -eq 1 ] && echo "$out" | grep -q "^VIOLATION property=$pr"; then nf=$(echo "$out" | grep "^VIOLATION" | grep -vc "no-failing-input-found"); res="$res $pr:caught(replayed=$nf)"; else res="$res $pr:MISSED(rc=$rc)"; fi
   done
   git checkout -- .
   if echo "$res" | grep -q caught; then pass=$((pass+1)); echo "OK   $name $res"; else fail=$((fail+1)); echo "MISS $name $res"; fi
 done
-echo "mutants caught: $pass, missed: $fail"
+if [ -z "$1" ]; then
+  for p in /verif/mutants/equivalent/*.patch; do
+    [ -f "$p" ] || continue
+    name=$(basename $p .patch)
+    prop=$(grep '^# prop:' $p | sed 's/# prop: //')
+    grep -v '^# ' $p > $wt.diff
+    git apply $wt.diff 2>$wt.err || { echo "SKIP equivalent/$name"; continue; }
+    ok=1
+    for pr in $prop; do
+      /verif/bin/govc check $pr --repo $wt --noevidence >/dev/null 2>&1 || ok=0
+    done
+    git checkout -- .
+    if [ $ok -eq 1 ]; then echo "OK   equivalent/$name (no alarm)"; else fail=$((fail+1)); echo "FALSE-ALARM equivalent/$name"; fi
+  done
+fi
+echo "mutants caught: $pass, missed or false alarms: $fail"
 [ $fail -eq 0 ]
